@@ -8,16 +8,16 @@ ALL = ["C%02d" % i for i in range(1, 18)]
 
 CHECKS = {
     "C01": {'level': 'model_checking', 'design': '6 (C01), 3.5-3.7', 'text': 'Wire.tla defines Layout declaratively; MCWire checks it exhaustively on a bounded universe (SegsAreLayout, SegmentsTile, RoundTrip ...). TLC (DslGen.tla) enumerates every program cell x option setting; each is compiled by the real CLI, the emitted encoders of Go, Rust, Java, Python and C++ are built against reference runtimes and run on a value-class sweep; every enc event is validated by TLC: bytes = Layout(p, m), first divergent field named from Segments.', 'note': "Trusted: the reference codec runtimes and drivers in /verif/runtimes (written for this project; DESIGN 4.4), the target toolchains; values are drawn from the domain MCWire derives. Cells whose emitted code does not build are invisible here and reported under C07. The harness's own reference encoder is not trusted (TLC checks ref = Layout on every message).", 'technique': 'TLC model checking of Wire.tla (MCWire) + TLC-generated programs (DslGen) compiled and run in 5 languages + TLC trace validation (TraceCodec)'},
-    "C02": {'level': 'model_checking', 'design': '6 (C02), 3.5', 'text': 'Same programs; every decoder is fed Layout(p,m) followed by tails <<>>, <<EE>>, <<FF FF 00 01>>; TLC validates value = Norm(p,m), consumed = Len(Layout), re-encoding = Layout for every dec event. MCWire proves RoundTrip on the specification and derives the value domain.', 'note': "Trusted: the reference codec runtimes and drivers in /verif/runtimes (written for this project; DESIGN 4.4), the target toolchains; values are drawn from the domain MCWire derives. Cells whose emitted code does not build are invisible here and reported under C07. The harness's own reference encoder is not trusted (TLC checks ref = Layout on every message).", 'technique': 'TLC model checking of Wire.tla (MCWire) + TLC-generated programs (DslGen) compiled and run in 5 languages + TLC trace validation (TraceCodec)'},
+    "C02": {'level': 'model_checking', 'design': '6 (C02), 3.5', 'text': 'Same programs; every decoder is fed Layout(p,m) followed by tails <<>>, <<EE>>, <<FF FF 00 01>>; TLC validates value = Norm(p,m), consumed = Len(Layout), re-encoding = Layout for every dec event, also when the receiver object already holds the previous message (reused-receiver histories). MCWire proves RoundTrip on the specification and derives the value domain; ReadMachine.tla (operational decoder: cursor, work list, a receiver that may hold any earlier message) is model-checked to refine Wire!Decode and shown sensitive (switches AppendWithoutReset, KeepOnEmptyString, SignedPrefix).', 'note': "Trusted: the reference codec runtimes and drivers in /verif/runtimes (written for this project; DESIGN 4.4), the target toolchains; values are drawn from the domain MCWire derives. Cells whose emitted code does not build are invisible here and reported under C07. The harness's own reference encoder is not trusted (TLC checks ref = Layout on every message).", 'technique': 'TLC model checking of Wire.tla (MCWire) and ReadMachine.tla + TLC-generated programs (DslGen) compiled and run in 5 languages + TLC trace validation (TraceCodec)'},
     "C03": {'level': 'model_checking', 'design': '6 (C03), 3.7', 'text': 'Agreement matrix: TLC compares the bytes of all encoders per message (agree events: who drifts from the canonical layout) and every decoder is run on the canonical bytes the other languages produce; a language whose encoder or decoder deviates is reported per cell.', 'note': "Trusted: the reference codec runtimes and drivers in /verif/runtimes (written for this project; DESIGN 4.4), the target toolchains; values are drawn from the domain MCWire derives. Cells whose emitted code does not build are invisible here and reported under C07. The harness's own reference encoder is not trusted (TLC checks ref = Layout on every message).", 'technique': 'TLC model checking of Wire.tla (MCWire) + TLC-generated programs (DslGen) compiled and run in 5 languages + TLC trace validation (TraceCodec)'},
     "C04": {'level': 'model_checking', 'design': '6 (C04)', 'text': "MCWire invariant LenOf on the specification; WireMachine.tla (operational encoder: work list, zero placeholder, back-patch after the target, "
        "checksum over the prefix written so far) is model-checked to refine Wire!Layout (1.3 M states; AppendOnlyExceptPatch, PrimsDiscipline) and shown sensitive "
        "(switch MeasureFromPlaceholder); programs with a length-of field of every unsigned width, match and object targets, all payload alternatives incl. empty and > 255 bytes, caller-supplied garbage; TLC validates the length field's bytes in every enc event and the decoded value.", 'note': "Trusted: the reference codec runtimes and drivers in /verif/runtimes (written for this project; DESIGN 4.4), the target toolchains; values are drawn from the domain MCWire derives. Cells whose emitted code does not build are invisible here and reported under C07. The harness's own reference encoder is not trusted (TLC checks ref = Layout on every message).", 'technique': 'TLC model checking of Wire.tla (MCWire) + TLC-generated programs (DslGen) compiled and run in 5 languages + TLC trace validation (TraceCodec)'},
     "C05": {'level': 'model_checking', 'design': '6 (C05)', 'text': 'MCWire invariants Dispatch / UnknownKeyFails; match tables of 5 forms x 7 key kinds; every key in the table is encoded and decoded (dynamic type of the payload observed), two keys outside the table are decoded (deckey events must report an error).', 'note': "Trusted: the reference codec runtimes and drivers in /verif/runtimes (written for this project; DESIGN 4.4), the target toolchains; values are drawn from the domain MCWire derives. Cells whose emitted code does not build are invisible here and reported under C07. The harness's own reference encoder is not trusted (TLC checks ref = Layout on every message).", 'technique': 'TLC model checking of Wire.tla (MCWire) + TLC-generated programs (DslGen) compiled and run in 5 languages + TLC trace validation (TraceCodec)'},
     "C06": {'level': 'model_checking', 'design': '6 (C06)', 'text': 'MCWire invariant Cksum; checksum fields of 4 widths, registered (VSUM<w>) and unregistered algorithm, followed or last; TLC validates the checksum bytes in enc events and that every recorded calc call covered exactly the bytes preceding a checksum field.', 'note': "Trusted: the reference codec runtimes and drivers in /verif/runtimes (written for this project; DESIGN 4.4), the target toolchains; values are drawn from the domain MCWire derives. Cells whose emitted code does not build are invisible here and reported under C07. The harness's own reference encoder is not trusted (TLC checks ref = Layout on every message).", 'technique': 'TLC model checking of Wire.tla (MCWire) + TLC-generated programs (DslGen) compiled and run in 5 languages + TLC trace validation (TraceCodec)'},
-    "C07": {'level': 'exploration', 'design': '6 (C07), 3.8', 'text': "Pipeline.tla's lifecycle (Validate -> RunGen -> WriteFiles -> Build) gives the requirement; TLC-generated programs (every DslGen cell x options) plus name-shape / omitted-package cells are compiled for all six targets; whether the emitted files are valid programs is decided by the target toolchains (go, rustc, javac, g++, python ast, the harness Lua parser); marker texts and member inventories are observed; the recorded lifecycle is validated by TLC against TraceLifecycle.tla.", 'note': 'The deciding observer is the target toolchain, so the level is exploration; reference runtimes define the API; 199 known findings at this commit.', 'technique': 'TLC-generated programs + target toolchains as oracles + TLC validation of the recorded lifecycle (TraceLifecycle)'},
-    "C15": {'level': 'model_checking', 'design': '6 (C15), 4.5', 'text': "Wire!Segments gives every leaf field's byte range (SegmentsTile checked by MCWire); the emitted Lua dissector is interpreted (own Lua-subset interpreter with lexical name resolution + Wireshark stubs) over the canonical encoding of every sweep message of every DslGen program; TLC validates every recorded tree:add against Segments (field, offset, length), the end offset and the absence of Lua errors (TraceDissect).", 'note': 'Trusted: harness/lua_interp.py and lua_wireshark.py (345 unit checks), lenient about TreeItem:le_add / ProtoField.int; 83 known findings.', 'technique': 'TLC model checking of Wire.tla + interpretation of the emitted dissector + TLC trace validation (TraceDissect)'},
-    "C17": {'level': 'exploration', 'design': '6 (C17), 3.8', 'text': 'The self-tests fin-protoc emits for Go (real testify), Rust (rustc --test), Java (JUnit stand-in), Python (unittest), C++ (gtest stand-in) are built and run for every DslGen program; the recorded SelfTest lifecycle (builds, one test per declared packet, all pass) is validated by TLC against TraceLifecycle.tla.', 'note': 'JUnit and gtest are stand-ins with the same assertion semantics; toolchains decide validity (exploration).', 'technique': 'TLC-generated programs + running the emitted tests + TLC validation of the recorded lifecycle'},
+    "C07": {'level': 'exploration', 'design': '6 (C07), 3.8', 'text': "Pipeline.tla's lifecycle (Validate -> RunGen -> WriteFiles -> Build) gives the requirement; TLC-generated programs (every DslGen cell x options) plus name-shape / omitted-package cells are compiled for all six targets; whether the emitted files are valid programs is decided by the target toolchains (go, rustc, javac, g++, python ast, the harness Lua parser); marker texts and member inventories are observed; the recorded lifecycle is validated by TLC against TraceLifecycle.tla.", 'note': 'The deciding observer is the target toolchain, so the level is exploration; reference runtimes define the API; the known findings at this commit are listed by root cause in DESIGN 0.5.', 'technique': 'TLC-generated programs + target toolchains as oracles + TLC validation of the recorded lifecycle (TraceLifecycle)'},
+    "C15": {'level': 'model_checking', 'design': '6 (C15), 4.5', 'text': "Wire!Segments gives every leaf field's byte range (SegmentsTile checked by MCWire); the emitted Lua dissector is interpreted (own Lua-subset interpreter with lexical name resolution + Wireshark stubs) over the canonical encoding of every sweep message of every DslGen program; TLC validates every recorded tree:add against Segments (field, offset, length), the end offset and the absence of Lua errors (TraceDissect).", 'note': 'Trusted: harness/lua_interp.py and lua_wireshark.py (345 unit checks), lenient about TreeItem:le_add / ProtoField.int; every run is cross-checked against the real Lua 5.3 library when it is installed (a disagreement is exit 2). DissectMachine.tla (operational dissector: offset threaded through sub-dissectors that return it) is model-checked (AttributesSegments, EndsAtMessageEnd, RangesInside, OffsetMonotone) and shown sensitive (DropOffsetAfterObject, DropOffsetAfterMatch, OneByteSubtree).', 'technique': 'TLC model checking of Wire.tla and DissectMachine.tla + interpretation of the emitted dissector + TLC trace validation (TraceDissect)'},
+    "C17": {'level': 'exploration', 'design': '6 (C17), 3.8', 'text': 'The self-tests fin-protoc emits for Go (real testify), Rust (rustc --test), Java (JUnit stand-in), Python (unittest), C++ (gtest stand-in) are built and run for every DslGen program; the recorded SelfTest lifecycle (builds, one test per declared packet, all pass) is validated by TLC against TraceLifecycle.tla; the outcome of a cell says how many of the emitted tests fail, so another failing test in a cell that already fails is a new finding.', 'note': 'JUnit and gtest are stand-ins with the same assertion semantics; toolchains decide validity (exploration).', 'technique': 'TLC-generated programs + running the emitted tests + TLC validation of the recorded lifecycle'},
     "C08": dict(
         level="model_checking", design="6 (C08), 3.10",
         text="Respell.tla: Meaning(p) is the normal form (MetaData resolved, padding resolved to byte/side, effective configuration); TLC checks "
@@ -35,7 +35,7 @@ CHECKS = {
              "step (ems of the output by an independent tokenizer, parse status, compile digest) is validated by TLC against "
              "TraceFormat.tla.",
         note="Trusted: the harness tokenizer (cross-checked against the ANTLR token stream on every run). The document set is "
-             "hand-written (harness/docs.py); 194 comment positions the formatter drops are recorded as known findings.",
+             "hand-written (harness/docs.py: 6 documents incl. multi-line documentation strings and a comment-only text); the comment positions the formatter drops are recorded as known findings. Grammar.tla (PacketDsl.g4 as a recogniser) decides 'syntactically valid' for every token-level mutation (TraceGrammar).",
         technique="TLC model checking of Format.tla + TLC-enumerated histories replayed into the formatter/compiler + TLC trace validation"),
     "C10": dict(
         level="model_checking", design="6 (C10), 3.9",
@@ -56,7 +56,7 @@ CHECKS = {
         level="model_checking", design="6 (C16), 3.10",
         text="Entry.tla (file / stdout / exit / tree machine) is model-checked (StdoutExact, FileUntouchedOnError, LibIsResult, TreeExact) and shown "
              "sensitive (DebugPrintArgc switch); TLC enumerates all call histories of length <= 2; each is replayed on concrete texts through the real CLI "
-             "and the C library; compile is run for target subsets x {with, without the subcommand word} x {relative, absolute, nested, pre-existing} "
+             "and the C library; compile is run for target subsets x {with, without the subcommand word} x {relative, absolute, nested, pre-existing, named like subcommands, one shared} "
              "directories; TLC validates every call against the library result / generator file maps obtained in-process (TraceEntry.tla).",
         note="Trusted: the overlay driver's in-process FormatPacketDsl / generator file maps as 'the library result'; 'nowhere else' observed by listing "
              "an empty working directory with HOME/TMPDIR redirected.",
@@ -64,14 +64,14 @@ CHECKS = {
     "C12": dict(
         level="model_checking", design="6 (C12), 3.4",
         text="Validate.tla states well-formedness twice (declarative IllFormed, operational Check machine in the compiler's "
-             "pass order); TLC checks that both agree and that every single injected fault (13 classes x every site of 3 "
+             "pass order); TLC checks that both agree and that every single injected fault (16 classes x every site of 5 "
              "bases) yields exactly its class, and emits each case. Every case is rendered at several line shifts, "
              "compiled by the real CLI with all six outputs, and the observed exit status / diagnostics / files are "
              "validated by TLC against TraceValidate.tla (reject => non-zero exit, a diagnostic of the class at the line, "
              "no file; accept => exit 0, no diagnostic, files).",
         note="Message text is mapped to offence classes by lenient keyword match; columns are ignored; the fault universe "
-             "is class x site over three hand-written bases plus every documented option value on the accept side.",
-        technique="TLC model checking of Validate.tla + TLC-enumerated fault cases replayed into the CLI + TLC trace validation"),
+             "is class x site over five hand-written bases; the accept side is every documented option value plus EVERY program DslGen enumerates (front end run in-process, 'frontend|<program>|rejected'); the model the front end builds is compared with Model.tla (ModelOf) by TLC (TraceModel), a mere difference is reported as a note, not as a verdict.",
+        technique="TLC model checking of Validate.tla + TLC-enumerated fault cases replayed into the CLI + TLC trace validation (TraceValidate); Model.tla / TraceModel for the accept side"),
     "C13": dict(
         level="model_checking", design="6 (C13), 3.8",
         text="Pipeline.tla (design: generators never consult map order) is model-checked exhaustively by TLC; the real "
